@@ -150,9 +150,10 @@ func errUnsupportedKey(key string) error {
 
 // noSuchFile reports whether err means that no file exists at a path: either
 // nothing is there, or a parent of it is a regular file (another object), in
-// which case nothing can be below it.
+// which case nothing can be below it, or the filesystem cannot name the path
+// at all (a segment longer than it allows), in which case nothing can be at it.
 func noSuchFile(err error) bool {
-	return os.IsNotExist(err) || errors.Is(err, syscall.ENOTDIR)
+	return os.IsNotExist(err) || errors.Is(err, syscall.ENOTDIR) || errors.Is(err, syscall.ENAMETOOLONG)
 }
 
 // belowFile reports whether the slash-separated path p cannot hold an object
